@@ -97,11 +97,22 @@ def gen_system(tier, seed):
                 a = r.choice(active)
                 flows.append([f"f{fid}", a, a, list(full), by_label_values(full, table, full)]); fid += 1
                 stats["selfloops"] += 1
+            if len(active) > 1 and r.random() < 0.3:
+                # a pair of flows without dimensions (totals only) that cancel, listed after the others
+                a, b = r.sample(active, 2)
+                v = Fraction(r.randint(1, 40), r.choice([1, 2]))
+                flows.append([f"f{fid}", a, b, [], [v]]); fid += 1
+                flows.append([f"f{fid}", b, a, [], [v]]); fid += 1
+                stats["scalar_pairs"] = stats.get("scalar_pairs", 0) + 1
         else:
             for _ in range(r.randint(0, 5)):
                 a, b = r.choice(active), r.choice(active)
                 ls = r.sample("trg", r.randint(0, 3))
                 flows.append([f"f{fid}", a, b, ls, [Fraction(r.randint(-3, 30), r.choice([1, 2])) for _ in labels(ls)]]); fid += 1
+            if r.random() < 0.35:
+                # a flow without dimensions, sometimes negative (check_flows must see it)
+                a, b = r.choice(active), r.choice(active)
+                flows.append([f"f{fid}", a, b, [], [Fraction(r.choice([-7, -1, 2, 9]), r.choice([1, 2]))]]); fid += 1
         stocks = []
         if r.random() < 0.5:
             for k in range(r.randint(1, 2)):
@@ -165,7 +176,7 @@ def gen_system(tier, seed):
         stats["balanced"] += int(balanced)
         lines.append("balance")
         lines.append("tol")
-        for t_, rr in (("-", 1), ("-", 0), (fnum(tol), 1), (fnum(tol), 0)):
+        for t_, rr in (("-", 1), ("-", 0), (fnum(tol), 1), (fnum(tol), 0), ("0", 1), ("0", 0)):
             lines.append(f"cmb {t_} {rr}")
         lines.append("cf - 0")
         lines.append("cf - 1")
